@@ -48,6 +48,9 @@ Readings (the weaker one where the statement leaves a choice):
     horizon + 1 rows.
   * one EquationSolver object may parse and solve several blocks in a row: the table after a solve is
     the table of THAT block (its variables plus k and t, its stated horizon + 1 rows).
+  * the priority order is the documented literal one (iteration, iteration_error, iteration_abs_change,
+    k, t) whatever the holder's constructor argument (its axis name) is; the solver's step trace
+    (TimeSeriesHolder('iteration'), which stores k as well) is a table of the same kind.
   * GetSeriesList() is the mechanism, not the table: a wrong list alone is reported as DRIFT; the
     property is judged on the text of the tables.
 Names containing a tab or a newline are outside the explored space (no name of a model can).
@@ -262,7 +265,11 @@ def execute(beh, seed):
     for o in hist:
         op = o['op']
         name = name_of(o['name'])
-        if op == 'block':
+        if op == 'create':
+            holder = TimeSeriesHolder(name)        # the constructor argument names the time axis
+            table_of = holder
+            ev = {'ev': 'Create', 'name': o['name']}
+        elif op == 'block':
             block_vars = [name_of(v) for v in o['vars']]
             conds = []
             stated.pop('block', None)      # the MaxTime line belongs to the text of the block
@@ -433,7 +440,7 @@ def legacy_spec(spec):
     return spec
 
 
-def execute_model(spec, wd):
+def execute_model(spec, wd, box=None):
     """Build and solve a real model; returns the trace events (Horizon statements, Solve, then Renders)."""
     from sfc_models.equation_solver import EquationSolver
     from sfc_models.utils import Logger
@@ -517,6 +524,8 @@ def execute_model(spec, wd):
         ok = False
     if solver is None:
         raise core.MachineryError('could not even construct %r' % (spec,))
+    if box is not None and 'trace' in spec:
+        box['step_trace'] = solver.TimeSeriesStepTrace
     holder = solver.TimeSeries
     snap = snapshot(holder)
     ev = {'ev': 'Solve', 'used': int(solver.Parser.MaxTime), 'vs': snap['names'], 'ok': ok, 'must': False}
@@ -553,6 +562,38 @@ def execute_model(spec, wd):
     return events
 
 
+def steptrace_events(trace_holder):
+    """The solver's own convergence trace (a TimeSeriesHolder('iteration') that also stores k, the other
+    exogenous values and the endogenous guesses) as a history: the constructor, one Put per series as
+    the solver filled it, then its table under several formats (the default one is what the 'step' log
+    receives)."""
+    from sfc_models.utils import TimeSeriesHolder
+    events = [{'ev': 'Create', 'name': codes(str(trace_holder.TimeSeriesName))}]
+    seen = TimeSeriesHolder(trace_holder.TimeSeriesName)
+    for n in list(trace_holder.keys()):
+        dict.__setitem__(seen, n, trace_holder[n])
+        ev = {'ev': 'Put', 'name': codes(n), 'len': len(trace_holder[n]), 'kind': kind_of(trace_holder[n]),
+              'ok': True}
+        ev.update(snapshot(seen))
+        events.append(ev)
+    events.append(render_event('g5', 'step-trace-default', trace_holder, lambda: trace_holder.GenerateCSVtext()))
+    for cls in ('g12', 'e'):
+        events.append(render_event(cls, 'step-trace', trace_holder,
+                                   lambda: trace_holder.GenerateCSVtext(FORMATS[cls])))
+    return events
+
+
+def model_cases(spec, wd):
+    """-> [(case, events)]: the results table of the spec and, when a step inside the horizon was traced,
+    the table of the solver's step trace."""
+    box = {}
+    out = [({'kind': 'model', 'spec': spec}, execute_model(spec, wd, box))]
+    tr = box.get('step_trace')
+    if tr is not None and len(tr) > 0:
+        out.append(({'kind': 'steptrace', 'spec': spec}, steptrace_events(tr)))
+    return out
+
+
 # --------------------------------------------------------------------------------------
 # judging
 # --------------------------------------------------------------------------------------
@@ -569,7 +610,12 @@ def signature(clause, events):
     options = set()
     blocks_parsed = 0
     solves = 0
+    axis = 'k'
     for ev in events:
+        if ev['ev'] == 'Create':
+            axis = name_of(ev['name'])
+        if ev['ev'] == 'Solve':
+            axis = 'k'
         if ev['ev'] == 'Block':
             blocks_parsed += 1
             stated.pop('block', None)
@@ -603,7 +649,8 @@ def signature(clause, events):
                 return 'header-names-differ-from-stored-names'
             pri = [n for n in header if n in PRIORITY]
             if header[:len(pri)] != [n for n in PRIORITY if n in names]:
-                return 'header-priority-names-not-first-in-order'
+                return 'header-priority-names-not-first-in-order' + \
+                    (':holder-axis-named-' + axis if axis != 'k' else '')
             if header[len(pri):] != sorted(header[len(pri):]):
                 return 'header-remainder-not-ascending-by-code-point'
         elif clause == 'C19_RowCount':
@@ -727,9 +774,11 @@ def run(rep):
     try:
         rng = random.Random('%d|models' % rep.seed)
         specs = model_specs(rep.tier, rng)
+        n0 = len(cases)
         for spec in specs:
-            cases.append(({'kind': 'model', 'spec': spec}, execute_model(spec, wd)))
+            cases.extend(model_cases(spec, wd))
         rep.extra['solved_models'] = len(specs)
+        rep.extra['step_trace_tables'] = len(cases) - n0 - len(specs)
     finally:
         core.cleanup(wd)
     rep.extra['tables_rendered'] = sum(1 for _, evs in cases for e in evs if e['ev'] == 'Render')
@@ -747,6 +796,11 @@ def replay(path):
     try:
         if case['kind'] == 'holder':
             events = execute(case['behaviour'], case['seed'])
+        elif case['kind'] == 'steptrace':
+            got = [ev for c, ev in model_cases(legacy_spec(case['spec']), wd) if c['kind'] == 'steptrace']
+            if not got:
+                raise core.MachineryError('the model of this replay file leaves no step trace now')
+            events = got[0]
         else:
             events = execute_model(case['spec'], wd)
     finally:
